@@ -66,6 +66,9 @@ theorem names_B {nb : Names} {act : Action JStr} {x0 : Option JStr} (hb : nb.len
       Option.some.injEq] at hg
     exact ⟨b1, hg.symm, by simp⟩
 
+theorem changeName_add2 (x : Option JStr) (b : JStr) : changeName 1 none (some b) [x, none] = some [x, some b] := by
+  simp [changeName]
+
 /-! ## parameter level -/
 
 theorem param_AB {k : Nat} {pa pb : Param} {d : PDiff} (wa : Param.WF 2 k pa) (wb : Param.WF 2 k pb)
@@ -118,7 +121,7 @@ theorem param_B {k : Nat} {pb : Param} {d : PDiff} (wb : Param.WF 2 k pb) (h0 : 
     obtain ⟨b1, hact, hset⟩ := names_B lb h0 hg
     subst hact
     refine ⟨pb, ?_, rfl⟩
-    simp only [applyAbsent, paramOps, applyParam, genDiffDoc_B, List.replicate]
+    simp only [applyAbsent, paramOps, applyParam, genDiffDoc_B, List.replicate, changeName_add2]
     cases pb
     simp_all
 
@@ -173,7 +176,7 @@ theorem field_B {k : MemberKey} {fb : Field} {d : FDiff} (wb : Field.WF 2 k fb)
     obtain ⟨b1, hact, hset⟩ := names_B lb nb hg
     subst hact
     refine ⟨fb, ?_, rfl⟩
-    simp only [applyAbsent, fieldOps, applyField, genDiffDoc_B, fromFirstName, List.replicate]
+    simp only [applyAbsent, fieldOps, applyField, genDiffDoc_B, fromFirstName, List.replicate, changeName_add2]
     cases fb
     simp_all
 
@@ -301,7 +304,9 @@ theorem method_B {k : MemberKey} {mb : Method} {d : MDiff} (wb : Method.WF 2 k m
       subst hact
       obtain ⟨res, hres, hl⟩ := params_inverse nodup_nil hnb (by intro e he; cases he) wpb hsrc hz
       refine ⟨{ desc := k.2, names := mb.names, doc := mb.doc, params := res }, ?_, ?_⟩
-      · simp only [applyAbsent, methodOps, applyMethod, genDiffDoc_B, fromFirstName, List.replicate, hset, hres]
+      · have hset' : [some k.1, some b1] = mb.names := by simpa using hset
+        simp only [applyAbsent, methodOps, applyMethod, genDiffDoc_B, fromFirstName, List.replicate, changeName_add2,
+          hset', hres]
       · exact ⟨db.symm, rfl, rfl, hl⟩
 
 /-! ## class level -/
@@ -431,7 +436,9 @@ theorem class_B {k : JStr} {cb : Class} {d : CDiff} (wb : Class.WF 2 k cb)
         obtain ⟨rf, hrf, hlf⟩ := fields_inverse nodup_nil hnfb (by intro e he; cases he) wfb hzf
         obtain ⟨rm, hrm, hlm⟩ := methods_inverse nodup_nil hnmb (by intro e he; cases he) wmb hsrc hzm
         refine ⟨{ names := cb.names, doc := cb.doc, fields := rf, methods := rm }, ?_, ?_⟩
-        · simp only [applyAbsent, classOps, applyClass, genDiffDoc_B, fromFirstName, List.replicate, hset, hrf, hrm]
+        · have hset' : [some k, some b1] = cb.names := by simpa using hset
+          simp only [applyAbsent, classOps, applyClass, genDiffDoc_B, fromFirstName, List.replicate, changeName_add2,
+            hset', hrf, hrm]
         · exact ⟨rfl, rfl, hlf, hlm⟩
 
 end DiffModel
